@@ -405,7 +405,7 @@ func (uc *unmarshalCtx) toNative(v Value, rt reflect.Type) (out reflect.Value, o
 // reflectTypeOf maps the few go/types types that cross into native code as
 // interface payloads (JSON values) to reflect types.
 func reflectTypeOf(t types.Type) reflect.Type {
-	switch u := t.(type) {
+	switch u := types.Unalias(t).(type) {
 	case *types.Basic:
 		switch u.Kind() {
 		case types.Bool:
